@@ -600,6 +600,18 @@ impl CodegenContext {
                         })
                         .collect();
 
+                    // Bank and segment names become identifiers, which may not contain a '.'
+                    let to_identifier = |name: String| -> CoreResult<Identifier> {
+                        if name.contains('.') {
+                            Err(Diagnostic::error()
+                                .with_message(format!("'{}' is not a valid name: it may not contain '.'", name))
+                                .with_labels(vec![id.span.to_label()])
+                                .into())
+                        } else {
+                            Ok(Identifier::new(name))
+                        }
+                    };
+
                     match id.data.as_str() {
                         "bank" => {
                             let extractor = ConfigValidator::new()
@@ -609,7 +621,7 @@ impl CodegenContext {
                                 .allowed("fill")
                                 .allowed("filename")
                                 .extract(id.span, &kvps)?;
-                            let name = Identifier::new(extractor.get_string(self, "name")?);
+                            let name = to_identifier(extractor.get_string(self, "name")?)?;
 
                             let opts = BankOptions {
                                 name: name.clone(),
@@ -642,7 +654,7 @@ impl CodegenContext {
                                 .extract(id.span, &kvps)?;
 
                             let mut opts = SegmentOptions::default();
-                            let name = Identifier::new(extractor.get_string(self, "name")?);
+                            let name = to_identifier(extractor.get_string(self, "name")?)?;
                             for key in ["start", "pc"] {
                                 if let Ok(Some(val)) = extractor.try_get_i64(self, key) {
                                     if !(0..=0xffff).contains(&val) {
@@ -1072,10 +1084,14 @@ impl CodegenContext {
                 }
             }
             Token::Segment { id, block, .. } => {
-                if let Some(segment_id) = self
-                    .evaluate_expression_as_string(id, true)?
-                    .map(Identifier::new)
-                {
+                if let Some(segment_name) = self.evaluate_expression_as_string(id, true)? {
+                    if segment_name.contains('.') {
+                        return Err(Diagnostic::error()
+                            .with_message(format!("unknown identifier: {}", id.data))
+                            .with_labels(vec![id.span.to_label()])
+                            .into());
+                    }
+                    let segment_id = Identifier::new(segment_name);
                     if !self.segments.contains_key(&segment_id) {
                         return Err(Diagnostic::error()
                             .with_message(format!("unknown identifier: {}", id.data))
